@@ -7,6 +7,8 @@ import ast
 import re
 
 from ..astutil import call_attr, calls_in, unparse, walk_local
+from ..cfg import CFG
+from ..dataflow import resolved_text
 from ..report import Finding, Report
 from ..srcindex import AnalysisError, Index
 
@@ -149,16 +151,38 @@ def check(idx: Index, rep: Report, tier: str) -> str:
             r.ok(f"dispatch:{tname}", f"{conv.loc} {tname} -> {fn}")
         else:
             r.fail(f"dispatch:{tname}", Finding("C23.R3", conv.fq, f"dispatch:{tname}", f"operations keyed in {tname} are not dispatched to {fn}", conv.loc))
-    for q, pairs in (("_convert_br", [("dest.args", "op.arguments")]), ("_convert_condbr", [("then_block.args", "op.then_arguments"), ("else_block.args", "op.else_arguments")])):
+    for q, pairs in (("_convert_br", [("op.successor.args", "op.arguments")]), ("_convert_condbr", [("op.then_block.args", "op.then_arguments"), ("op.else_block.args", "op.else_arguments")])):
         f = idx.func(CO, q)
-        t = unparse(f.node)
-        ok = all(f"for arg, val in zip({a}, {b}):" in t for a, b in pairs) and t.count("phi.add_incoming(val_map[val], current_block)") == len(pairs) and "current_block = block_map[parent]" in t
+        cfg = CFG(f.node)
+        opn = f.node.args.args[0].arg
         br = [c for c in calls_in(f.node) if unparse(c.func) in ("builder.branch", "builder.cbranch")]
-        last_is_branch = bool(br) and isinstance(f.node.body[-1], ast.Expr) and any(x is br[0] for x in ast.walk(f.node.body[-1]))
-        if ok and last_is_branch:
+        if len(br) != 1:
+            raise AnalysisError(f"{f.fq}: expected exactly one branch instruction")
+        nbr = cfg.node_of(br[0])
+        found = set()
+        problems = []
+        for w in [x for x in walk_local(f.node) if isinstance(x, ast.For)]:
+            it = w.iter
+            if not (isinstance(it, ast.Call) and call_attr(it) == "zip" and len(it.args) >= 2 and isinstance(w.target, ast.Tuple) and len(w.target.elts) == 2):
+                continue
+            at = tuple(resolved_text(cfg, a_, cfg.node_of(w)).replace(opn + ".", "op.") for a_ in it.args[:2])
+            if at not in pairs:
+                continue
+            av, vv = unparse(w.target.elts[0]), unparse(w.target.elts[1])
+            adds = [c for c in calls_in(w) if call_attr(c) == "add_incoming" and len(c.args) == 2]
+            good = False
+            for c in adds:
+                phi_t = resolved_text(cfg, c.func.value, cfg.node_of(c))  # type: ignore[attr-defined]
+                blk_t = resolved_text(cfg, c.args[1], cfg.node_of(c)).replace(opn + ".", "op.")
+                if phi_t == f"val_map[{av}]" and unparse(c.args[0]) == f"val_map[{vv}]" and blk_t == "block_map[op.parent_block()]":
+                    good = True
+            if good and cfg.path_avoiding(cfg.entry, nbr, lambda n, h=cfg.node_of(w): n.id == h, follow_exc=False) is None:
+                found.add(at)
+        missing = [p_ for p_ in pairs if p_ not in found]
+        if not missing:
             r.ok(f.fq, f"{f.loc} incoming (value, current block) for every successor argument, then the branch")
         else:
-            r.fail(f.fq, Finding("C23.R3", f.fq, "phi-incoming", "a successor argument does not get its phi incoming from the current block before the branch is emitted: LLVM rejects the phi or the value is wrong", f.loc))
+            r.fail(f.fq, Finding("C23.R3", f.fq, "phi-incoming", f"no loop `for arg, val in zip({missing[0][0]}, {missing[0][1]})` adding `val_map[val]` with the current block to `val_map[arg]` runs before the branch is emitted: a successor argument does not get its phi incoming (LLVM rejects the phi or the value is wrong)", f.loc))
     f = idx.func(CV, "_convert_func")
     t = unparse(f.node)
     if "builder.position_after(block_map[block].instructions[-1])" in t and "phi = builder.phi(convert_type(arg.type))" in t:
